@@ -5,6 +5,7 @@ import (
 	"fmt"
 	"os"
 	"path/filepath"
+	"regexp"
 	"strconv"
 	"strings"
 
@@ -149,6 +150,30 @@ func c08Generated(r *lp.Run) {
 			"requestBody": map[string]any{"required": true, "content": map[string]any{"application/json": map[string]any{"schema": map[string]any{"type": "object", "required": []any{"s"}, "properties": map[string]any{"s": map[string]any{"type": "string", "pattern": p}}}}}},
 			"responses":   map[string]any{"200": map[string]any{"description": "ok"}}}}
 	}
+	// a pattern next to the other string keywords: every keyword is checked, none takes the place of another
+	type combo struct {
+		name     string
+		extra    map[string]any
+		pattern  string
+		subjects []string // all of them satisfy the other keywords
+	}
+	combos := []combo{
+		{"email", map[string]any{"format": "email"}, `^[a-m]`, []string{"a@b.co", "x.y@example.com", "m@example.org", "zed@example.com"}},
+		{"email", map[string]any{"format": "email"}, `\.com$`, []string{"a@b.co", "x.y@example.com", "m@example.org"}},
+		{"hostname", map[string]any{"format": "hostname"}, `^[a-m]`, []string{"example.com", "a-b.example", "zed.example", "m.example"}},
+		{"hostname", map[string]any{"format": "hostname"}, `^(?!ex)`, []string{"example.com", "a-b.example"}},
+		{"lengths", map[string]any{"minLength": 2, "maxLength": 4}, `^a`, []string{"ab", "ba", "abcd", "bcda"}},
+		{"email+lengths", map[string]any{"format": "email", "minLength": 3, "maxLength": 40}, `^z`, []string{"a@b.co", "z@b.co"}},
+	}
+	for i, c := range combos {
+		sch := map[string]any{"type": "string", "pattern": c.pattern}
+		for k, v := range c.extra {
+			sch[k] = v
+		}
+		paths[fmt.Sprintf("/c%d", i)] = map[string]any{"post": map[string]any{"operationId": fmt.Sprintf("c%d", i),
+			"requestBody": map[string]any{"required": true, "content": map[string]any{"application/json": map[string]any{"schema": map[string]any{"type": "object", "required": []any{"s"}, "properties": map[string]any{"s": sch}}}}},
+			"responses":   map[string]any{"200": map[string]any{"description": "ok"}}}}
+	}
 	doc, _ := json.Marshal(map[string]any{"openapi": "3.0.3", "info": map[string]any{"title": "t", "version": "1"}, "paths": paths})
 	pkg, err := mod.Add("rx", doc, gen.Options{})
 	if err != nil {
@@ -194,6 +219,35 @@ func c08Generated(r *lp.Run) {
 			}
 		}
 	}
+	for i, c := range combos {
+		re, err := ogenregex.Compile(c.pattern)
+		if err != nil {
+			r.Fail(lp.PropFail{Property: "C08", What: "pattern does not compile", Input: c.pattern, Observed: err.Error(), Expected: "compiles"})
+			continue
+		}
+		var items [][3]string
+		for _, s := range c.subjects {
+			b, _ := json.Marshal(map[string]string{"s": s})
+			items = append(items, [3]string{"POST", fmt.Sprintf("/c%d", i), string(b)})
+		}
+		ans, _ := drv.Do(map[string]any{"pkg": pkg.Name, "cmd": "postbatch", "items": items, "text": "why"})
+		res, ok := ans["results"].([]any)
+		if !ok {
+			r.Fail(lp.PropFail{Property: "C08", What: "driver failure", Input: c.pattern, Observed: fmt.Sprint(ans), Expected: "results"})
+			continue
+		}
+		for k, x := range res {
+			out := fmt.Sprint(x)
+			want, _ := re.MatchString(c.subjects[k])
+			accepted := strings.HasPrefix(out, "501 h1")
+			refused := strings.HasPrefix(out, "400 h0")
+			r.Count("c08 gen "+c.name+c.pattern+c.subjects[k], fmt.Sprintf("generated-validator-with-%s:%v", c.name, want), true)
+			r.PropCheck()
+			if (want && !accepted) || (!want && !refused) {
+				r.Fail(lp.PropFail{Property: "C08", What: "a `pattern` next to other string keywords (" + c.name + ") is not executed as the compiled pattern answers", Input: map[string]any{"pattern": c.pattern, "other_keywords": c.extra, "subject": c.subjects[k]}, Observed: out, Expected: map[bool]string{true: "accepted (handler invoked)", false: "400"}[want]})
+			}
+		}
+	}
 }
 
 // control-letter and legacy octal escapes: every `\cX` (X a letter) denotes the code point X mod 32, every
@@ -229,4 +283,54 @@ func c08Escapes(r *lp.Run) {
 		check(`\`+strconv.FormatInt(int64(v), 8), rune(v))
 	}
 	check(`\0`, 0)
+}
+
+// patterns made of class edge cases and nothing the converter would otherwise have to touch (no backslash, dot or
+// parenthesis): `[]` / `[^]` next to `]`, a `[` inside a class, POSIX-looking classes, hyphens at the ends.
+// ECMA-262 and RE2 read these differently (under ECMA-262 the first `]` ends a class, `[` inside one is an ordinary
+// character and there are no POSIX classes), so each is paired with its ECMA-262 reading written out by hand in
+// RE2 syntax, and `Compile(p)` must match exactly what that oracle matches. (The backtracking engine is no oracle
+// here: regexp2 itself gives `[[:alpha:]]` a reading of its own.)
+func c08ClassEdges(r *lp.Run) {
+	const anyC, noC = `[\x00-\x{10FFFF}]`, `[^\x00-\x{10FFFF}]`
+	cases := [][2]string{
+		{`[]]`, noC + `\]`}, {`^x[^]]$`, `^x` + anyC + `\]$`}, {`^[[:alpha:]]$`, `^[\[:alph]\]$`}, {`^[^[:digit:]]+$`, `^[^\[:digt]\]+$`},
+		{`[[:alpha:]]`, `[\[:alph]\]`}, {`^[[:^alpha:]]$`, `^[\[:\^alph]\]$`}, {`a[]b`, `a` + noC + `b`}, {`^[^]$`, `^` + anyC + `$`}, {`^[^][^]$`, `^` + anyC + anyC + `$`},
+		{`[[]`, `\[`}, {`^[a[]$`, `^[a\[]$`}, {`^[[a]$`, `^[\[a]$`}, {`[a-]`, `[a\-]`}, {`^[-a]$`, `^[\-a]$`}, {`^[]a]$`, `^` + noC + `a\]$`}, {`[^]a]`, anyC + `a\]`},
+		{`^[$]$`, `^\$$`}, {`^[|]$`, `^\|$`}, {`^[*+?]$`, `^[*+?]$`}, {`^[{}]$`, `^[{}]$`}, {`^[a-c-e]$`, `^[a-c\-e]$`}, {`^[^-a]$`, `^[^\-a]$`},
+		{`[]`, noC}, {`[^]`, anyC}, {`^[]*$`, `^$`}, {`^[^]*$`, `^` + anyC + `*$`}, {`^a[]|b$`, `^a` + noC + `|b$`}, {`^[[]]$`, `^\[\]$`}, {`^[[][]]$`, `^\[` + noC + `\]$`},
+		{`[[=a=]]`, `[\[=a]\]`}, {`^[[.a.]]$`, `^[\[.a]\]$`}, {`^[a&&b]$`, `^[a&b]$`}, {`^[a~~b]$`, `^[a~b]$`},
+	}
+	alpha := []rune{']', '[', ':', 'a', 'l', 'p', 'h', 'b', 'c', 'd', 'e', 'x', '1', '-', '^', '$', '|', '*', '{', '}', '=', '&', '~', '.', 'é', '\n'}
+	subjects := []string{""}
+	for _, a := range alpha {
+		subjects = append(subjects, string(a))
+		for _, b := range alpha {
+			subjects = append(subjects, string(a)+string(b))
+		}
+	}
+	subjects = append(subjects, "a]]", "x]]", "xa]", "[]]", "ab]", "a:]", ":]]", "abc", "x\n]", "[]a]", "[a]")
+	for _, c := range cases {
+		p := c[0]
+		oracle := regexp.MustCompile(c[1])
+		compiled, err := ogenregex.Compile(p)
+		r.PropCheck()
+		if err != nil {
+			r.Count("classedge "+p, "class-edge:compile-error", true)
+			r.Fail(lp.PropFail{Property: "C08", What: "a pattern of the portable grammar does not compile", Input: map[string]string{"pattern": p}, Observed: err.Error(), Expected: "compiles"})
+			continue
+		}
+		bad := ""
+		for _, s := range subjects {
+			a, _ := compiled.MatchString(s)
+			if b := oracle.MatchString(s); a != b {
+				bad = fmt.Sprintf("subject %q: as compiled %v, ECMA-262 reading %v", s, a, b)
+				break
+			}
+		}
+		r.Count("classedge "+p, "class-edge:"+map[bool]string{true: "agree", false: "DIFFER"}[bad == ""], true)
+		if bad != "" {
+			r.Fail(lp.PropFail{Property: "C08", What: "a class edge case does not mean what it means under ECMA-262", Input: map[string]string{"pattern": p, "ecma_262_reading_in_re2_syntax": c[1]}, Observed: bad, Expected: "same answer"})
+		}
+	}
 }
